@@ -478,8 +478,10 @@ func runC12E2E(r *Rng, n int) {
 				p.result, p.whereR = c12E2EShape(r, tr, repFramed)
 			}
 			R := repFramed(p.result)
-			if c12KnownClass(p, R) {
-				for t := c12MiB - r.Intn(9); c12KnownClass(p, R); t -= 64 {
+			// known finding json-sticky-writer: JSON replies stay within the server-side limit. R is measured
+			// on a probe whose op id may have one digit less than the real call's: keep 8 bytes of margin.
+			if c12KnownClass(p, R+8) {
+				for t := c12MiB - 8 - r.Intn(9); c12KnownClass(p, R+8); t -= 64 {
 					p.result, p.whereR = c12E2EShape(r, t, repFramed)
 					R = repFramed(p.result)
 				}
